@@ -5,6 +5,7 @@ CONSTANTS
   D = 2
   Vals = {0,1,2}
   Wts = {0,1,2}
+  Totals <- MCTotals4
   Export = FALSE
 INVARIANT QuantilesOrdered
 INVARIANT QuantilesWithinRange
@@ -14,6 +15,7 @@ INVARIANT MeanWithinRange
 INVARIANT TraceUnchanged
 INVARIANT PointMass
 INVARIANT ScaleFree
+INVARIANT TotalFree
 INVARIANT FitsInv
 INVARIANT OrderReductionSound
 CONSTRAINT Emit
